@@ -77,6 +77,9 @@ type c12RealObs struct {
 	Proto  int      `json:"proto"` // HTTP major version of the exchange as the client saw it
 	OK     bool     `json:"ok"`    // the RPC succeeded and its response carries a payload
 	Err    string   `json:"err,omitempty"`
+	// Lines: every line of the server's stderr during this exchange as written, with what the real
+	// runTestCasesForServer made of it (record | forward | skip) and the test case it was recorded for
+	Lines [][3]string `json:"lines"`
 }
 
 // ---------------------------------------------------------------- certificates (once per process)
@@ -473,7 +476,7 @@ func c12RealExchange(ctx context.Context, tr http.RoundTripper, addr string, in 
 func c12Real(c *gen.Ctx, in c12RealIn) []c12RealObs {
 	out := []c12RealObs{}
 	failAll := func(err error) []c12RealObs {
-		return append(out, c12RealObs{Fb: []string{}, Err: strings.SplitN(err.Error(), "\n", 2)[0]})
+		return append(out, c12RealObs{Fb: []string{}, Lines: [][3]string{}, Err: strings.SplitN(err.Error(), "\n", 2)[0]})
 	}
 	if err := c12GetCerts(); err != nil {
 		return failAll(err)
@@ -516,18 +519,13 @@ func c12Real(c *gen.Ctx, in c12RealIn) []c12RealObs {
 	if len(stderrs) > 0 {
 		stderrs[len(stderrs)-1] += rest
 	}
+	// The server's stderr is read the way the runner reads it (server_runner.go): each line goes
+	// through the real runTestCasesForServer for a batch containing this test case.
+	batch := c12Batch(in.Name)
 	for i := range out {
-		var lines []rs.VerifC12Line
-		for _, l := range strings.Split(stderrs[i], "\n") {
-			if l == "" {
-				continue
-			}
-			if msg, ok := strings.CutPrefix(l, in.Name+": "); ok && in.Name != "" {
-				lines = append(lines, rs.VerifC12Line{Prefixed: true, Prefix: in.Name, Msg: msg})
-			} else {
-				lines = append(lines, rs.VerifC12Line{Msg: l})
-			}
-		}
+		lines, raw := c12ReadStderr(batch, stderrs[i])
+		out[i].Lines = raw
+		c.E.Add("stderr-lines-read-by-the-real-runner", len(raw))
 		out[i].Fb, out[i].Named = c12Classes(c, lines, in.Name)
 		switch {
 		case out[i].Err != "":
@@ -568,6 +566,15 @@ type c12RealProc struct {
 var c12RealProcs = []c12RealProc{
 	{"Unary", false, false}, {"IdempotentUnary", false, false}, {"IdempotentUnary", true, false},
 	{"ClientStream", false, false}, {"ServerStream", false, false}, {"BidiStream", false, false}, {"BidiStream", false, true},
+}
+
+func c12ASCII(s string) bool {
+	for i := 0; i < len(s); i++ {
+		if s[i] < 0x20 || s[i] > 0x7e {
+			return false
+		}
+	}
+	return true
 }
 
 func c12B(b bool) int {
@@ -707,6 +714,43 @@ func c12RealGen(c *gen.Ctx) {
 				c.E.Count("kind:real-timeout")
 			}
 		}
+	}
+	// (e) test case names are arbitrary strings: names that mean something to a formatter or to a
+	// "name: message" reader, on a deviating request sent twice (feedback for the aspect and for the
+	// repetition must both be attributed to the test case by the real runner)
+	nOdd := 60
+	if thorough {
+		nOdd = 600
+	}
+	for i := 0; i < nOdd; i++ {
+		t := c12RealTransports[(i+n)%len(c12RealTransports)]
+		if !thorough && t.version == 2 && i%4 != 0 { // HTTP/3 set-up is the slowest
+			t = c12RealTransports[i%2]
+		}
+		p := gen.Pick(r, c12RealProcs)
+		if p.full && t.version != 1 {
+			p.full = false
+		}
+		protocol := r.Intn(3)
+		if p.get {
+			protocol = 0
+		}
+		in := mk(t, p, protocol, r.Intn(2), r.Intn(6))
+		switch r.Intn(4) {
+		case 0:
+			in.E = c12Tuple(r.Intn(864))
+		case 1: // matches: only the repetition is reported
+		default:
+			d := gen.Pick(r, []int{0, 2, 3, 4}) // version, protocol, codec, compression
+			in.E[d] = (in.A[d] + 1) % c12Dims[d]
+		}
+		in.Times = 2
+		in.Name = c12OddName(r, i)
+		for strings.ContainsAny(in.Name, "\t") || !c12ASCII(in.Name) { // header values over HTTP/2 and 3: visible ASCII
+			in.Name = c12OddName(r, r.Intn(1000)*3+1)
+		}
+		ins = append(ins, in)
+		c.E.Count("kind:real-odd-name")
 	}
 	anyIns := make([]any, len(ins))
 	for i := range ins {
